@@ -12,6 +12,7 @@ mod gen;
 mod handlemc;
 mod lookup;
 mod mutmc;
+mod procmc;
 mod pt;
 mod rm;
 mod scen;
@@ -35,6 +36,7 @@ fn n_items(prop: &str, tier: &str) -> usize {
         "C17" => capimc::n_items(tier),
         "C16" => c16::n_items(tier),
         "C15" => c15::n_items(tier),
+        "C07" => procmc::n_items(tier),
         "C02" | "C03" | "C05" | "C10" | "C11" => sysprops::n_items(prop, tier),
         _ => 0,
     }
@@ -50,6 +52,7 @@ fn run_item(prop: &str, tier: &str, idx: usize, only: Option<&Value>) -> sys::MR
         "C17" => capimc::run_item(tier, idx, only),
         "C16" => c16::run_item(tier, idx, only),
         "C15" => c15::run_item(tier, idx, only),
+        "C07" => procmc::run_item(tier, idx, only),
         "C02" | "C03" | "C05" | "C10" | "C11" => sysprops::run_item(prop, tier, idx, only),
         _ => sys::mach(format!("no engine for {}", prop)),
     }
@@ -65,6 +68,7 @@ fn report(prop: &str, tier: &str) -> Report {
         "C17" => capimc::report(tier),
         "C16" => c16::report(tier),
         "C15" => c15::report(tier),
+        "C07" => procmc::report(tier),
         "C02" | "C03" | "C05" | "C10" | "C11" => sysprops::report(prop, tier),
         _ => unreachable!(),
     }
